@@ -97,6 +97,7 @@ class Engine(CoreMixin, ExprMixin, CallMixin, StmtMixin, BuiltinMixin):
         self.set_src = {}
         self.set_iterations = []
         self.dict_known = {}
+        self.callee_writes = {}
 
     def contract_allows(self, ecls):
         for names, _ in self.contract.raises + self.contract.may_raise:
